@@ -27,13 +27,13 @@ theorem recall_record (i : RecIn) (cols : List Spec.Col)
     (hv : ∀ c ∈ cols, Spec.ValidCol c) (hne : cols ≠ []) (hn : cols.length = i.nCols)
     (hwf : i.data.WF) (hsize : i.data.size < 2 ^ 53)
     (hin : IntactAt i.data i.s i.e cols)
-    (hloc : i.loc = .unallocated) (hfc : i.firstCol = none) (hba : i.isBA = false) :
+    (hloc : i.loc = .unallocated) (hfc : i.firstCol = none) :
     ∃ r, carvedRecord i = .ok r ∧ r.cols = expectedCCols 0 i.e cols ∧
       r.truncatedBeginning = false ∧ r.truncatedEnding = false := by
-  exact Proofs.CarveRecall.recall_record i cols hv hne hn hwf hsize hin hloc hfc hba
+  exact Proofs.CarveRecall.recall_record i cols hv hne hn hwf hsize hin hloc hfc
 
 /-- Region level: if the scan of the region with the full pattern reports the record's header
-`[s, e)`, the record is intact and carving completes (see C08 for when it does not), the result
+`[s, e)`, the record is intact and carving completes (it does: C08 `completes`), the result
 contains a cell at `s`, with the file offset of the header, carrying the stored values. -/
 theorem recall_region (sig : CarveSig) (fc : List Int) (simplified : List (List Int)) (pf : Regex.Pat)
     (hc : chosenSignature sig = .ok (fc, simplified)) (hpf : Regex.genSignature simplified false = .ok pf)
@@ -41,7 +41,7 @@ theorem recall_region (sig : CarveSig) (fc : List Int) (simplified : List (List 
     (hv : ∀ c ∈ cols, Spec.ValidCol c) (hne : cols ≠ []) (hn : cols.length = sig.numberOfColumns)
     (hwf : data.WF) (hsize : data.size < 2 ^ 53) (hin : IntactAt data s e cols)
     (hm : (s, e) ∈ Regex.finditer pf data.toList)
-    (cells : List CarvedCell) (h : carveUnallocated sig ps pn po rs data false = .ok cells) :
+    (cells : List CarvedCell) (h : carveUnallocated sig ps pn po rs data = .ok cells) :
     ∃ c ∈ cells, c.matchStart = s ∧ c.matchEnd = e ∧ c.fileOffset = po + rs + s ∧
       c.rec_.cols = expectedCCols 0 e cols := by
   exact Proofs.CarveRecall.recall_region sig fc simplified pf hc hpf ps pn po rs data cols s e hv hne hn hwf
@@ -94,12 +94,12 @@ theorem first_column_from_freeblock_size (fc : List Int) (st : Int) (fbSize sdSi
     (hsize : fbSize = 2 + (1 + sdSize + 1) + sdcs + sz)
     (huniq : ∀ t ∈ fc, t ≠ st → getContentSize t ≠ .ok sz) :
     fromFreeblockSize fc fbSize sdSize sdcs =
-      .ok (some { serialType := st, varintLen := 1, contentSize := sz, hashIsStr := true, truncatedFirst := true }) := by
+      .ok (some { serialType := st, varintLen := 1, contentSize := sz, truncatedFirst := true }) := by
   exact Proofs.CarveRecall.first_column_from_size fc st fbSize sdSize sdcs sz hfc hst hnd hsz hsize huniq
 
 /-- non-vacuity: first column lists one-, two- and eight-byte integers, the freeblock leaves two bytes -/
 example : fromFreeblockSize [1, 2, 6] (2 + (1 + 1 + 1) + 3 + 2) 1 3 =
-    .ok (some { serialType := 2, varintLen := 1, contentSize := 2, hashIsStr := true, truncatedFirst := true }) :=
+    .ok (some { serialType := 2, varintLen := 1, contentSize := 2, truncatedFirst := true }) :=
   first_column_from_freeblock_size [1, 2, 6] 2 _ 1 3 2 (by decide) (by decide) (by decide) (by decide) rfl (by decide)
 
 /-- When every row stores the same fixed-width first serial type, the fall-back used where
@@ -107,31 +107,49 @@ nothing can be reconstructed (unallocated space) picks that serial type. -/
 theorem first_column_same_for_every_row (sig : CarveSig) (st : Int) (sz : Nat) (h0 : 0 ≤ st ∧ st ≤ 9)
     (htot : sig.totalRecords ≠ 0) (hsz : getContentSize st = .ok sz) (hsmall : sz < 2 ^ 53) :
     probabilisticFirst sig [st] =
-      .ok { serialType := st, varintLen := 1, contentSize := sz, hashIsStr := true, truncatedFirst := true,
+      .ok { serialType := st, varintLen := 1, contentSize := sz, truncatedFirst := true,
             probabilisticFirst := true } := by
   exact Proofs.CarveRecall.first_column_single sig st sz h0 htot hsz hsmall
 
-/-! ### what the code does not deliver
+/-! ### through the version-history iterator (de-duplication by digest)
+
+After fix 56bb962 the digest of a carved cell is the md5 of the record's own bytes (matched serial
+types + bodies as far as the region holds them, C08 `digest_is_record_bytes`).
 
 Full statement: the iterator reports every record the carver produced for a first version (records
-that differ in their columns or in their place are different records).  False: the digest that
-de-duplicates carved cells is `md5(data[cell_start:cell_end])` with a guessed, often negative
-`cell_start` (Python wraps it), so different deleted rows share a digest and all but one are dropped. -/
+that differ in their columns or in their place are different records).  Still false, by design of a
+content digest: rows with identical bytes at different places share it.  What holds: cells with
+pairwise distinct digests are all kept. -/
 
 def FullStatement : Prop := DedupKeepsAll
 
 theorem recall_through_iterator_counterexample : ¬ FullStatement := by
   exact Proofs.CarveRecall.dedup_counterexample
 
-/-- … with cells the carver itself produces: a table (one-byte integer, four-byte integer), two
-freeblocks that are exactly the freed cells of the rows (7, 0x01020305) and (9, 0x01020305).  Both rows
-are carved with their values, both get the digest of the last four content bytes, and the
-de-duplication of the version-history iterator keeps one of them. -/
-theorem digest_collision_drops_a_row :
+theorem recall_through_iterator_partial (cells : List CarvedCell) (h : (cells.map (·.digest)).Nodup) :
+    (dedup [] cells).length = cells.length ∧ (dedup [] cells).map (·.2.digest) = cells.map (·.digest) := by
+  exact Proofs.CarveRecall.dedup_keeps_distinct cells h
+
+/-- the witness of the former collision defect (digest = last four content bytes): a table (one-byte
+integer, four-byte integer), two freeblocks that are exactly the freed cells of the rows
+(7, 0x01020305) and (9, 0x01020305).  Both rows are carved with their values, now get different
+digests, and both survive the de-duplication (non-vacuity of `recall_through_iterator_partial`). -/
+theorem digest_separates_rows :
     ∃ a b, carveFreeblocks sig14 1024 [fbA5, fbB5] = .ok [a, b] ∧
       a.rec_.cols.map (·.value) = [.dec (.int 7), .dec (.int 16909061)] ∧
       b.rec_.cols.map (·.value) = [.dec (.int 9), .dec (.int 16909061)] ∧
-      a.digest = b.digest ∧ (dedup [] [a, b]).length = 1 := by
-  exact Proofs.CarveRecall.digest_collision_drops_a_row'
+      a.digest ≠ b.digest ∧ (dedup [] [a, b]).length = 2 := by
+  exact Proofs.CarveRecall.digest_separates_rows
+
+/-- What is still lost (open finding C09-05, single-column tables): the empty partial pattern also
+matches at the start of the full match, the fall-back guesses a two-byte integer, the bogus
+candidate covers exactly the real record's bytes `01 09` and shares its digest; the
+de-duplication keeps one cell for the two (and the dictionary keeps the later, bogus one). -/
+theorem single_column_bogus_collision :
+    ∃ a x y b, carveUnallocated sig12 1024 2 1024 100 (Buf.ofList [1, 9]) = .ok [a, x, y, b] ∧
+      a.matchStart = 0 ∧ a.matchEnd = 1 ∧ a.rec_.cols.map (·.value) = [.dec (.int 9)] ∧
+      b.matchStart = 0 ∧ b.matchEnd = 0 ∧ b.rec_.cols.map (·.value) = [.dec (.int 265)] ∧
+      a.digest = b.digest ∧ (dedup [] [a, x, y, b]).length = 3 := by
+  exact Proofs.CarveRecall.single_column_bogus_collision
 
 end SqliteDissect.Properties.C09
